@@ -33,6 +33,12 @@
 
 using namespace cds_static;
 static long g_big = 0;
+// two-process persistence ("cold load"): with --save-dir the images of every built structure are written to files; with --load-dir the
+// process builds nothing, regenerates only the plain model from the seed and checks what it loads from those files - lazily initialised
+// static tables that only a constructor fills are then observed
+static std::string g_savedir, g_loaddir;
+static void write_file(const std::string &p, const std::string &d) { FILE *f = fopen(p.c_str(), "wb"); if (f) { fwrite(d.data(), 1, d.size(), f); fclose(f); } }
+static bool read_file(const std::string &p, std::string *d) { FILE *f = fopen(p.c_str(), "rb"); if (!f) return false; char b[65536]; size_t k; d->clear(); while ((k = fread(b, 1, sizeof b, f)) > 0) d->append(b, k); fclose(f); return true; }
 #define V(props, op, fclass, qcls, detail) obs::violation(props, op, fclass, qcls, detail)
 
 // ---------------------------------------------------------------------------------------- VByte (C17)
@@ -367,9 +373,27 @@ struct BitModel {
 
 static std::vector<bool> gen_bits(Rng &r, std::string *shape) {
   size_t n;
-  int k = (int)r.below(10);
-  static const char *names[] = {"all0", "all1", "single1", "single0", "alternating", "runs", "random_sparse", "random_dense", "random_half", "block_uniform"};
+  int k = (int)r.below(11);
+  static const char *names[] = {"all0", "all1", "single1", "single0", "alternating", "runs", "random_sparse", "random_dense", "random_half", "block_uniform", "mixed_density"};
   *shape = names[k];
+  if (k == 10) {
+    // long vector made of dense stretches (thousands of ones within a few thousand bits) and very sparse ones (>= 1024 ones spread over
+    // more than 2^16 bits) in random order: select directories switch representation between blocks
+    std::vector<bool> b;
+    size_t segs = 2 + r.below(3);
+    bool sparse = r.chance(50);
+    for (size_t sg = 0; sg < segs; sg++, sparse = !sparse) {
+      size_t ones = 1100 + r.below(2500);
+      size_t gap = sparse ? 70 + r.below(60) : 1 + r.below(6);
+      for (size_t o = 0; o < ones; o++) {
+        size_t z = gap == 1 ? 0 : r.below(2 * gap - 1);
+        b.insert(b.end(), z, false);
+        b.push_back(true);
+      }
+    }
+    if (r.chance(50)) b.insert(b.end(), r.below(100), false);
+    return b;
+  }
   size_t lens[] = {1, 2, 14, 15, 16, 29, 30, 31, 32, 33, 45, 60, 63, 64, 65, 127, 128, 129, 255, 256, 300, 480, 481, 1000, 1920, 2049};
   n = r.chance(70) ? lens[r.below(sizeof(lens) / sizeof(lens[0]))] : 1 + r.below(g_big ? 200000 : 3000);
   std::vector<bool> b(n, false);
@@ -421,8 +445,9 @@ static void check_bitseq(BitSequence *bs, const BitModel &m, const std::string &
 static bool has_variant(const std::string &list, const std::string &v) { return ("," + list + ",").find("," + v + ",") != std::string::npos; }
 
 static void mode_bitseq(uint64_t seed, long cases, const std::string &variants) {
-  Rng r(seed);
+  bool cold = !g_loaddir.empty();
   for (long cs = 0; cs < cases; cs++) {
+    Rng r(seed * 1000003ull + (uint64_t)cs * 7919ull + 1);   // one generator per case: build-only, load-only and ordinary runs see the same vectors
     std::string shape;
     BitModel m;
     m.b = gen_bits(r, &shape);
@@ -431,42 +456,55 @@ static void mode_bitseq(uint64_t seed, long cases, const std::string &variants) 
     obs::count("cls.bitvec_" + shape);
     if (n % 32 == 0) obs::count("cls.bitvec_len_mod32_0");
     if (n % 15 == 0) obs::count("cls.bitvec_len_mod15_0");
+    if (cold) obs::count("cls.cold_load");
     uint *raw = new uint[n / 32 + 2]();
     for (size_t i = 0; i < n; i++) if (m.b[i]) raw[i / 32] |= 1u << (i % 32);
     struct Var { std::string name; BitSequence *bs; };
     std::vector<Var> vars;
     uint rg = (uint)std::vector<uint>{1, 2, 3, 4, 8, 20, 32, 40}[r.below(8)];
     uint rr = (uint)std::vector<uint>{1, 2, 3, 5, 7, 8, 16, 32, 64, 128}[r.below(10)];
-    if (has_variant(variants, "rg")) { obs::crumb("C19", "bitseq", "build RG factor " + std::to_string(rg) + " " + shape + " n=" + std::to_string(n)); vars.push_back({"RG(" + std::to_string(rg) + ")", new BitSequenceRG(raw, n, rg)}); }
-    if (has_variant(variants, "rrr")) { obs::crumb("C19", "bitseq", "build RRR rate " + std::to_string(rr) + " " + shape + " n=" + std::to_string(n)); vars.push_back({"RRR(" + std::to_string(rr) + ")", new BitSequenceRRR(raw, n, rr)}); }
-    if (has_variant(variants, "sdarray") && !m.ones.empty()) { obs::crumb("C19", "bitseq", "build SDArray " + shape + " n=" + std::to_string(n)); vars.push_back({"SDArray", new BitSequenceSDArray(raw, n)}); }
-    if (has_variant(variants, "darray") && !m.ones.empty()) { obs::crumb("C19", "bitseq", "build DArray " + shape + " n=" + std::to_string(n)); vars.push_back({"DArray", new BitSequenceDArray(raw, n)}); }
+    if (has_variant(variants, "rg")) { obs::crumb("C19", "bitseq", "build RG factor " + std::to_string(rg) + " " + shape + " n=" + std::to_string(n)); vars.push_back({"RG(" + std::to_string(rg) + ")", cold ? NULL : new BitSequenceRG(raw, n, rg)}); }
+    if (has_variant(variants, "rrr")) { obs::crumb("C19", "bitseq", "build RRR rate " + std::to_string(rr) + " " + shape + " n=" + std::to_string(n)); vars.push_back({"RRR(" + std::to_string(rr) + ")", cold ? NULL : new BitSequenceRRR(raw, n, rr)}); }
+    if (has_variant(variants, "sdarray") && !m.ones.empty()) { obs::crumb("C19", "bitseq", "build SDArray " + shape + " n=" + std::to_string(n)); vars.push_back({"SDArray", cold ? NULL : new BitSequenceSDArray(raw, n)}); }
+    if (has_variant(variants, "darray") && !m.ones.empty()) { obs::crumb("C19", "bitseq", "build DArray " + shape + " n=" + std::to_string(n)); vars.push_back({"DArray", cold ? NULL : new BitSequenceDArray(raw, n)}); }
+    size_t vi = 0;
     for (auto &v : vars) {
-      obs::crumb("C19", "bitseq", "query " + v.name + " " + shape + " n=" + std::to_string(n));
-      check_bitseq(v.bs, m, v.name, shape, true);
-      std::stringstream ss(std::ios::in | std::ios::out | std::ios::binary);
-      obs::crumb("C19", "bitseq", "save/load " + v.name + " " + shape + " n=" + std::to_string(n));
-      v.bs->save(ss);
-      std::string img = ss.str();
+      std::string fn = (cold ? g_loaddir : g_savedir) + "/b" + std::to_string(cs) + "_" + std::to_string(vi++) + ".img";
+      std::string img;
+      if (!cold) {
+        obs::crumb("C19", "bitseq", "query " + v.name + " " + shape + " n=" + std::to_string(n));
+        check_bitseq(v.bs, m, v.name, shape, true);
+        std::stringstream ss(std::ios::in | std::ios::out | std::ios::binary);
+        obs::crumb("C19", "bitseq", "save/load " + v.name + " " + shape + " n=" + std::to_string(n));
+        v.bs->save(ss);
+        img = ss.str();
+        if (!g_savedir.empty()) write_file(fn, img);
+      } else {
+        obs::crumb("C19", "bitseq", "load in a process that never built one: " + v.name + " " + shape + " n=" + std::to_string(n));
+        if (!read_file(fn, &img)) { obs::line("E\tmissing-image\t" + fn); continue; }
+      }
       std::stringstream in(img + "CANARY!!", std::ios::in | std::ios::binary);
       BitSequence *l = BitSequence::load(in);
       if (!l) V("C19", "bitseq", "load-failed", v.name, "BitSequence::load returned NULL for " + v.name);
       else {
         if ((size_t)in.tellg() != img.size()) V("C19", "bitseq", "leftover-bytes", v.name, v.name + " load consumed " + std::to_string((long)in.tellg()) + " of " + std::to_string(img.size()));
-        check_bitseq(l, m, v.name + "/loaded", shape, true);
+        check_bitseq(l, m, v.name + (cold ? "/loaded-cold" : "/loaded"), shape, true);
         delete l;
       }
       delete v.bs;
     }
     delete[] raw;
-    if (cs < 3) obs::line("X\tbit vector " + shape + " of " + std::to_string(n) + " bits (" + std::to_string(m.ones.size()) + " ones): access/rank0/rank1 at every position, select0/select1 for every j, on " + std::to_string(vars.size()) + " variants, built and reloaded");
+    if (cs < 3) obs::line("X\tbit vector " + shape + " of " + std::to_string(n) + " bits (" + std::to_string(m.ones.size()) + " ones): access/rank0/rank1 at every position, select0/select1 for every j, on " + std::to_string(vars.size()) + " variants, " + (cold ? "loaded in a process that built nothing" : "built and reloaded"));
   }
 }
 
 // ---------------------------------------------------------------------------------------- wavelet trees (C19)
 static void mode_wt(uint64_t seed, long cases) {
-  Rng r(seed);
+  bool cold = !g_loaddir.empty();
   for (long cs = 0; cs < cases; cs++) {
+    Rng r(seed * 1000003ull + (uint64_t)cs * 7919ull + 2);
+    Rng rq(seed * 31ull + (uint64_t)cs + 77);
+    if (cold) obs::count("cls.cold_load");
     size_t n = 1 + r.below(g_big ? 50000 : 1500);
     uint sigma = (uint)std::vector<uint>{1, 2, 3, 4, 16, 64, 200, 256}[r.below(8)];
     bool skew = r.chance(50);
@@ -487,7 +525,7 @@ static void mode_wt(uint64_t seed, long cases) {
         obs::count("eval.wt_query", 2);
         uint a = s->access(i);
         if (a != seq[i]) { V("C19", "wt", "wrong-answer", what, what + " access(" + std::to_string(i) + ")=" + std::to_string(a) + " expected " + std::to_string(seq[i]) + " (n=" + std::to_string(n) + " sigma=" + std::to_string(sigma) + ")"); return; }
-        uint c = seq[r.below(n)];
+        uint c = seq[rq.below(n)];
         const std::vector<size_t> &o = occ[c];
         size_t expect = std::upper_bound(o.begin(), o.end(), i) - o.begin();
         size_t got = s->rank(c, i);
@@ -502,53 +540,63 @@ static void mode_wt(uint64_t seed, long cases) {
         }
       }
     };
-    {
-      // the configuration FMINDEX and XBW use: Huffman shape, identity mapper
-      std::vector<uint> cp = seq;
-      Mapper *am = new MapperNone();
-      am->use();
-      wt_coder *wc = new wt_coder_huff(cp.data(), n, am);
-      wc->use();
-      BitSequenceBuilder *bsb = rrr ? (BitSequenceBuilder *)new BitSequenceBuilderRRR(par) : (BitSequenceBuilder *)new BitSequenceBuilderRG(par);
-      bsb->use();
-      obs::crumb("C19", "wt", "WaveletTree n=" + std::to_string(n) + " sigma=" + std::to_string(sigma) + (rrr ? " RRR " : " RG ") + std::to_string(par));
-      WaveletTree *wt = new WaveletTree(cp.data(), n, wc, bsb, am);
-      check(wt, "WaveletTree");
-      std::stringstream ss(std::ios::in | std::ios::out | std::ios::binary);
-      wt->save(ss);
-      std::string img = ss.str();
+    auto reload = [&](Sequence *built, const std::string &what, int idx) {
+      std::string fn = (cold ? g_loaddir : g_savedir) + "/w" + std::to_string(cs) + "_" + std::to_string(idx) + ".img";
+      std::string img;
+      if (!cold) {
+        std::stringstream ss(std::ios::in | std::ios::out | std::ios::binary);
+        built->save(ss);
+        img = ss.str();
+        if (!g_savedir.empty()) write_file(fn, img);
+      } else {
+        obs::crumb("C19", "wt", "load in a process that never built one: " + what + " n=" + std::to_string(n) + " sigma=" + std::to_string(sigma));
+        if (!read_file(fn, &img)) { obs::line("E\tmissing-image\t" + fn); return; }
+      }
       std::stringstream in(img + "CANARY!!", std::ios::in | std::ios::binary);
       Sequence *l = Sequence::load(in);
-      if (!l) V("C19", "wt", "load-failed", "WaveletTree", "Sequence::load returned NULL");
+      if (!l) V("C19", "wt", "load-failed", what, "Sequence::load returned NULL");
       else {
-        if ((size_t)in.tellg() != img.size()) V("C19", "wt", "leftover-bytes", "WaveletTree", "load consumed " + std::to_string((long)in.tellg()) + " of " + std::to_string(img.size()));
-        check(l, "WaveletTree/loaded");
+        if (idx == 0 && (size_t)in.tellg() != img.size()) V("C19", "wt", "leftover-bytes", what, "load consumed " + std::to_string((long)in.tellg()) + " of " + std::to_string(img.size()));
+        check(l, what + (cold ? "/loaded-cold" : "/loaded"));
         delete l;
       }
-      delete wt;
-      wc->unuse();
-      bsb->unuse();
-      am->unuse();
-    }
-    {
-      std::vector<uint> cp = seq;
-      Mapper *am = new MapperNone();
-      am->use();
-      BitSequenceBuilder *bsb = rrr ? (BitSequenceBuilder *)new BitSequenceBuilderRRR(par) : (BitSequenceBuilder *)new BitSequenceBuilderRG(par);
-      bsb->use();
-      obs::crumb("C19", "wt", "WaveletTreeNoptrs n=" + std::to_string(n) + " sigma=" + std::to_string(sigma));
-      WaveletTreeNoptrs *wt = new WaveletTreeNoptrs(cp.data(), n, bsb, am);
-      check(wt, "WaveletTreeNoptrs");
-      std::stringstream ss(std::ios::in | std::ios::out | std::ios::binary);
-      wt->save(ss);
-      std::string img = ss.str();
-      std::stringstream in(img + "CANARY!!", std::ios::in | std::ios::binary);
-      Sequence *l = Sequence::load(in);
-      if (!l) V("C19", "wt", "load-failed", "WaveletTreeNoptrs", "Sequence::load returned NULL");
-      else { check(l, "WaveletTreeNoptrs/loaded"); delete l; }
-      delete wt;
-      bsb->unuse();
-      am->unuse();
+    };
+    if (cold) {
+      reload(NULL, "WaveletTree", 0);
+      reload(NULL, "WaveletTreeNoptrs", 1);
+    } else {
+      {
+        // the configuration FMINDEX and XBW use: Huffman shape, identity mapper
+        std::vector<uint> cp = seq;
+        Mapper *am = new MapperNone();
+        am->use();
+        wt_coder *wc = new wt_coder_huff(cp.data(), n, am);
+        wc->use();
+        BitSequenceBuilder *bsb = rrr ? (BitSequenceBuilder *)new BitSequenceBuilderRRR(par) : (BitSequenceBuilder *)new BitSequenceBuilderRG(par);
+        bsb->use();
+        obs::crumb("C19", "wt", "WaveletTree n=" + std::to_string(n) + " sigma=" + std::to_string(sigma) + (rrr ? " RRR " : " RG ") + std::to_string(par));
+        WaveletTree *wt = new WaveletTree(cp.data(), n, wc, bsb, am);
+        check(wt, "WaveletTree");
+        reload(wt, "WaveletTree", 0);
+        delete wt;
+        wc->unuse();
+        bsb->unuse();
+        am->unuse();
+      }
+      {
+        std::vector<uint> cp = seq;
+        Mapper *am = new MapperNone();
+        am->use();
+        BitSequenceBuilder *bsb = rrr ? (BitSequenceBuilder *)new BitSequenceBuilderRRR(par) : (BitSequenceBuilder *)new BitSequenceBuilderRG(par);
+        bsb->use();
+        obs::crumb("C19", "wt", "WaveletTreeNoptrs n=" + std::to_string(n) + " sigma=" + std::to_string(sigma));
+        WaveletTreeNoptrs *wt = new WaveletTreeNoptrs(cp.data(), n, bsb, am);
+        check(wt, "WaveletTreeNoptrs");
+        reload(wt, "WaveletTreeNoptrs", 1);
+        delete wt;
+        bsb->unuse();
+        am->unuse();
+      }
     }
     if (cs < 3) obs::line("X\tsequence of " + std::to_string(n) + " symbols over an alphabet of " + std::to_string(sigma) + (skew ? " (skewed)" : " (uniform)") + ": access/rank/select on WaveletTree (Huffman shape) and WaveletTreeNoptrs, built and reloaded");
   }
@@ -683,6 +731,8 @@ int main(int argc, char **argv) {
     else if (a == "--random") nrandom = atol(val().c_str());
     else if (a == "--variants") variants = val();
     else if (a == "--big") g_big = 1;
+    else if (a == "--save-dir") g_savedir = val();
+    else if (a == "--load-dir") g_loaddir = val();
     else { fprintf(stderr, "unknown arg %s\n", a.c_str()); return 2; }
   }
 #if defined(__SANITIZE_ADDRESS__)
